@@ -170,6 +170,33 @@ def job_sig(shape):
                            replay=_native_decode_cex(qf, sig), detail=f"symbolic result {paths[0].value if paths else None!r}"[:300]))
     except pyvc.Unsupported as ex:
         out.append(res(name, UNDECIDED, backend="pyvc", detail=f"Unsupported: {ex}"))
+    # ---- decode_output of a reading of the WHOLE register (what decode_counts receives from a simulator: leftmost character = highest qubit): only
+    #      the trailing len(returns) characters count, whatever precedes them - the repository's algorithm wrappers and tests rely on it
+    name = f"C05.decode_output.full-register-reading[{sig}]"
+    for extra in (1, 3):
+        xs = [z3.Bool(f"x{j}") for j in range(extra)]
+        eng = pyvc.Engine()
+        for cls in (QintImp, QfixedImp, Qchar):
+            eng.models[cls.from_bool.__func__] = lambda vc, f, v: c09.SpecVal(f.__self__, v)
+        try:
+            paths = eng.explore(lambda vc: (qf.decode_output, [SymStr([SymChar(z) for z in xs + zs])], {}))
+            exp, used = c09._expect_struct(qf.returns.ttype, list(reversed(zs)))
+            ok = len(paths) == 1 and paths[0].kind == "return" and c09._match(paths[0].value, exp)
+        except pyvc.Unsupported as ex:
+            out.append(res(name, UNDECIDED, backend="pyvc", detail=f"Unsupported: {ex}"))
+            break
+        if not ok:
+            rd = "1" * extra + "0" * (n - 1) + "1"
+            try:
+                got_long, got_short = qf.decode_output(rd), qf.decode_output(rd[extra:])
+            except Exception as ex:  # noqa
+                got_long, got_short = f"raises {type(ex).__name__}", None
+            out.append(res(name, REFUTED, backend="pyvc", replayed=got_long != got_short,
+                           replay=dict(signature=sig, reading=rd, observed=repr(got_long), expected=f"{got_short!r} (= decode_output({rd[extra:]!r}), the trailing {n} characters)"),
+                           detail=f"symbolic result {paths[0].value if paths else None!r}"[:300], solver_output="structural mismatch"))
+            break
+    else:
+        out.append(res(name, PROVED, backend="z3"))
     # ---- input_qubits ---------------------------------------------------------------------------
     name = f"C05.input_qubits.range[{sig}]"
     iq = qf.input_qubits
@@ -271,16 +298,17 @@ def job_e2e(a):
 
 
 def _job_e2e(a):
-    origin, src = a
+    origin, src = a[:2]
+    profile = a[2] if len(a) > 2 else "default"
     t0 = time.time()
     import hashlib
-    key = hashlib.sha1(src.encode()).hexdigest()[:10]
+    key = hashlib.sha1(src.encode()).hexdigest()[:10] + ("" if profile == "default" else ",fast")
     name = f"C05.round-trip[{origin},{key}]"
     base = dict(strength="bounded", backend="truth-table", instance_key=src, program=src)
     if "Q." in src or "Parameter[" in src:
         return []
     try:
-        qf = bounded.front_end(src, "default", compile_=True)
+        qf = bounded.front_end(src, profile, compile_=True)
     except Exception:  # noqa
         return []
     if not hasattr(qf, "expressions"):
@@ -309,6 +337,18 @@ def _job_e2e(a):
         return out
     n = len(names)
     qc = qf.circuit()
+    # input_qubits: the qubits the circuit reads its arguments from - the compiler gives argument bit k qubit k, whatever a later re-assignment of the
+    # argument's NAME maps that name to
+    nm0 = f"C05.input_qubits.argument-qubits[{origin},{key}]"
+    try:
+        iq = list(qf.input_qubits)
+    except Exception as ex:  # noqa
+        iq = f"raises {type(ex).__name__}: {ex}"
+    if iq != list(range(n)):
+        out.append(res(nm0, REFUTED, replayed=True, replay=dict(program=src, profile=profile, observed=iq, expected=list(range(n)), qubit_map=dict(qc.qubit_map),
+                                                                 call="qlassf(program, bool_optimizer=profile).input_qubits"), **base))
+        return out
+    out.append(res(nm0, PROVED, **base))
     try:
         st, m = spec.csim_tables(qc.gates, qc.num_qubits, n)
     except ValueError:
@@ -506,6 +546,8 @@ def run(tier, only=None):
     for origin, src in family(tier, seed=0):
         if origin != "outside":
             jobs.append((job_e2e, (origin, src)))
+            if origin == "curated" or tier == "thorough":
+                jobs.append((job_e2e, (origin, src, "fast")))
     rep.add(run_pool(_dispatch, jobs, chunksize=2))
     rep.under_contract(QlassF.encode_input, QlassF.decode_output, QlassF.input_qubits.fget, QlassF.output_qubits.fget, QCircuitWrapper.decode_counts,
                        format_outcome, interpret_as_qtype)
